@@ -2,6 +2,7 @@
 //! types as TypeLevel.v constraints), struct fields and explicit Send/Sync/Copy/Clone impls
 //! (Sigs.v data), sealing facts, the impl_tuple! table.
 use std::collections::BTreeMap;
+use quote::ToTokens;
 use std::fmt::Write as _;
 use syn::{GenericArgument, GenericParam, ImplItem, Item, PathArguments, Type, TypeParamBound, WherePredicate};
 
@@ -595,6 +596,41 @@ pub fn gen_deleg(files: &BTreeMap<String, syn::File>, out: &mut String) {
     }
     rows.sort();
     writeln!(out, "(* impls.rs, impl_zeroize.rs, lib.rs :: the bodies of the trait impls for GenericArray that delegate to the slice *)\nDefinition gen_delegations : list (string * deleg) :=\n  [{}].", rows.join(";\n   ")).unwrap();
+}
+
+// ------------------------------------------------------------------ which trait methods are implemented (T1)
+
+/// for every trait impl whose Self type is built from GenericArray / GenericArrayIter: the methods and
+/// associated consts the impl defines itself (everything else is the trait's default)
+pub fn gen_impl_methods(files: &BTreeMap<String, syn::File>, out: &mut String) {
+    let mut rows = vec![];
+    for fname in ["lib.rs", "impls.rs", "iter.rs", "sequence.rs", "impl_alloc.rs", "impl_serde.rs", "impl_zeroize.rs", "impl_const_default.rs", "hex.rs"] {
+        let Some(file) = files.get(fname) else { continue };
+        for it in &file.items {
+            let Item::Impl(im) = it else { continue };
+            let Some((_, tr, _)) = &im.trait_ else { continue };
+            let st = im.self_ty.to_token_stream().to_string();
+            if !st.contains("GenericArray") {
+                continue;
+            }
+            let mut self_txt: String = st.split_whitespace().collect::<Vec<_>>().join("");
+            // lifetimes and parameter names do not matter for the table
+            for lt in ["'a", "'de"] {
+                self_txt = self_txt.replace(lt, "");
+            }
+            let tr_txt: String = tr.to_token_stream().to_string().split_whitespace().collect::<Vec<_>>().join("");
+            let mut names = vec![];
+            for ii in &im.items {
+                match ii {
+                    ImplItem::Fn(f) => names.push(f.sig.ident.to_string()),
+                    ImplItem::Const(c) => names.push(c.ident.to_string()),
+                    _ => {}
+                }
+            }
+            rows.push(format!("(\"{}\", \"{} for {}\", [{}])", fname, tr_txt, self_txt, names.iter().map(|n| format!("\"{}\"", n)).collect::<Vec<_>>().join("; ")));
+        }
+    }
+    writeln!(out, "\n(* every trait impl for a type built from GenericArray / GenericArrayIter: (file, impl header, the methods\n   and consts it defines itself -- every other method of the trait is the default one) *)\nDefinition gen_impl_methods : list (String.string * String.string * list String.string) :=\n  [{}]%string.", rows.join(";\n   ")).unwrap();
 }
 
 // ------------------------------------------------------------------ impl_tuple! bodies (T1)
